@@ -398,8 +398,9 @@ void exec_api_op(Task &t, const Op &op, OpResult &r) {
         if (viastdout) stdout = save;
         if (s) {
             int e = errno;
+            int ferr = ferror(s) ? 1 : 0, ori = fwide(s, 0);
             int fr = fclose(s);
-            ret = ret * 4 + (fr ? 1 : 0);
+            ret = ret * 32 + (fr ? 1 : 0) + 2 * ferr + 4 * (ori > 0 ? 1 : ori < 0 ? 2 : 0); // what the stream is left like
             errno = e;
         }
         break;
@@ -426,7 +427,7 @@ void exec_api_op(Task &t, const Op &op, OpResult &r) {
         case FN_gets_s: { char *p; LIB(p = _gets_s_chk(CP(2), N(3), B(4))); ret = POFF(p); break; }
         }
         if (save) stdin = save;
-        if (s) { int e = errno; ret = ret * 4 + (feof(s) ? 1 : 0) + (ferror(s) ? 2 : 0); fclose(s); errno = e; }
+        if (s) { int e = errno; int ori = fwide(s, 0); ret = ret * 16 + (feof(s) ? 1 : 0) + (ferror(s) ? 2 : 0) + 4 * (ori > 0 ? 1 : ori < 0 ? 2 : 0); fclose(s); errno = e; }
         break;
     }
     // ---------------- tokenise
